@@ -674,7 +674,9 @@ def broadcast_and_apply(  # noqa: C901
             elif isinstance(x, ak.layout.Content):
                 return False
         else:
-            return True
+            # the contents can be used as they are only if nothing precedes the
+            # first list: items before offsets[0] belong to no list
+            return offsets is None or len(offsets) == 0 or offsets[0] == 0
 
     def apply(inputs, depth, user):
         nplike = ak.nplike.of(*inputs)
